@@ -503,6 +503,9 @@ class Own:
             if not (isinstance(ft, tuple) and ft and ft[0] == "bound" and ft[3] == "cls"):
                 recv = self.expr(f.value)
                 recv_expr = f.value
+        elif isinstance(f, ast.Call) and isinstance(f.func, ast.Name) and f.func.id == "getattr" and f.args:
+            recv = self.expr(f.args[0])          # getattr(obj, name)(...): obj is the receiver
+            recv_expr = f.args[0]
         res = None
         is_map_ctor = (isinstance(f, ast.Name) and f.id == "map" and e.args
                        and isinstance(e.args[0], ast.Name) and e.args[0].id in M.classes)
